@@ -70,8 +70,14 @@ theorem bodyProcessAnswer_eq (go) (fd : Nat) (r : Reply) (s : St) :
   unfold bodyProcessAnswer paTail paVo paS2
   rfl
 
-theorem Mid.good {d c s s'} {ret : Ret} (hm : Mid d s s') (hp : Post s (s', ret) c) : Good d c s (s', ret) :=
-  ⟨hm.wf, hm.debt, hm.step.weaken', hp⟩
+theorem Mid.good {d c s s'} {ret : Ret} (hm : Mid d s s') (hp : Post s (s', ret) c) : GoodO d c s (s', ret) :=
+  Or.inr ⟨hm.wf, hm.debt, hm.step.weaken', hp⟩
+
+theorem paTail_drop (go) (fd : Nat) (r : Reply) (c : Conn) (key : Nat) (q : Query)
+    (vo : Cares.Proto.Cookie.ValidateOut) (s : St) (h : vo.verdict = .drop) :
+    paTail go fd r c key q vo s = (s, .ok) := by
+  unfold paTail
+  rw [if_pos (by rw [h]; rfl)]
 
 theorem sk_hole_st (s : St) (fd key : Nat) (r : Reply) :
     ((({ s with accepted := s.accepted ++ [(fd, key, r)] } : St).modConn fd fun c =>
@@ -90,7 +96,7 @@ theorem servers_cacheInsert (s : St) (q : Query) (r : Reply) : (s.cacheInsert q 
 theorem good_paTail {go} (hgo : GoOk go) {d fd r c key q vo s0 s}
     (hm : Mid d s0 s)
     (hnd : ¬ (vo.verdict == .drop) = true → key ∈ s.sk.idx ∧ ∀ q2, s.query? key = some q2 → q2.conn = some fd) :
-    Good d (.processAnswer fd r) s0 (paTail go fd r c key q vo s) := by
+    GoodO d (.processAnswer fd r) s0 (paTail go fd r c key q vo s) := by
   unfold paTail
   split
   · exact hm.good trivial
@@ -111,9 +117,9 @@ theorem good_paTail {go} (hgo : GoOk go) {d fd r c key q vo s0 s}
     have hq6 : s6.sk.q? key = some q2.sk := by rw [hsk6, hole_q?]; exact hq2s
     -- the two branches that put the query on the requeue list
     have viaRfc : ∀ (s8 : St) (ret : Ret), s8.sk = s6.sk.removeFromConn key →
-        Good d (.processAnswer fd r) s0 (s8, ret) := by
+        GoodO d (.processAnswer fd r) s0 (s8, ret) := by
       intro s8 ret h8
-      refine ⟨by unfold Wf; rw [h8]; exact wf_rfc hw6 (Or.inr rfl) hq6, by rw [h8]; exact debt_rfc key hd6, ?_, trivial⟩
+      refine Or.inr ⟨by unfold Wf; rw [h8]; exact wf_rfc hw6 (Or.inr rfl) hq6, by rw [h8]; exact debt_rfc key hd6, ?_, trivial⟩
       rw [h8]; exact hs6.trans (step_rfc hw6 hq6)
     have hnd6 : (s6.servers.map (·.id)).Nodup := server_ids_nodup hw6
     split
@@ -126,16 +132,16 @@ theorem good_paTail {go} (hgo : GoOk go) {d fd r c key q vo s0 s}
         rw [sk_modQuery_same, sk_removeFromConn]; intro; rfl
       · split
         · have h7 := sk_incFailures s6 c.srv ((s.query? key).getD q).usingTcp hnd6
-          refine Good.tail (hgo d _ _ ?_) (by rw [h7]; exact hs6) (Or.inl rfl) (Or.inl rfl) trivial
+          refine Good.tail (hgo.2 d _ _ ?_) (by rw [h7]; exact hs6) (Or.inl rfl) (Or.inl rfl) trivial
           exact ⟨by rw [h7]; exact hw6, by unfold Sk.Idx; rw [h7]; exact hk6, by rw [h7]; exact hd6⟩
         · have h7 : ((s6.cacheInsert ((s.query? key).getD q) r).setGood c.srv ((s.query? key).getD q).usingTcp).sk = s6.sk := by
             rw [sk_setGood, sk_cacheInsert]
             rw [servers_cacheInsert]; exact hnd6
-          refine Good.tail (hgo d _ _ ?_) (by rw [h7]; exact hs6) (Or.inl rfl) (Or.inl rfl) trivial
+          refine Good.tail (hgo.2 d _ _ ?_) (by rw [h7]; exact hs6) (Or.inl rfl) (Or.inl rfl) trivial
           exact ⟨by rw [h7]; exact hw6, by unfold Sk.Idx; rw [h7]; exact hk6, by rw [h7]; exact hd6⟩
 
 theorem good_processAnswer {go} (hgo : GoOk go) {d fd r s} (hpre : Pre d s (.processAnswer fd r)) :
-    Good d (.processAnswer fd r) s (bodyProcessAnswer go fd r s) := by
+    GoodO d (.processAnswer fd r) s (bodyProcessAnswer go fd r s) := by
   obtain ⟨hw, hl, hd⟩ := hpre
   obtain ⟨c, hc⟩ := conn?_of_live hl
   rw [bodyProcessAnswer_eq]
@@ -165,9 +171,10 @@ theorem good_processAnswer {go} (hgo : GoOk go) {d fd r s} (hpre : Pre d s (.pro
             · have hdrop : (paVo s c q r).verdict = .drop := by
                 unfold paVo at hr ⊢; exact validate_requeue_drop _ _ _ _ _ _ hr
               rw [if_pos hr]
-              have hg := hgo d (.requeue key .ok false none true) _
-                ⟨WfS.weaken_hole hm2.wf, by unfold Sk.Idx; rw [hsk2]; exact hki, hm2.debt⟩
-              exact good_paTail hgo (hm2.trans (hg.toMid rfl rfl)) (fun hv => absurd (by rw [hdrop]; rfl) hv)
+              rcases hm2.call hgo (.requeue key .ok false none true)
+                ⟨WfS.weaken_hole hm2.wf, by unfold Sk.Idx; rw [hsk2]; exact hki, hm2.debt⟩ rfl rfl with hoof | hm3
+              · rw [paTail_drop _ _ _ _ _ _ _ _ hdrop]; exact Or.inl hoof
+              · exact good_paTail hgo hm3 (fun hv => absurd (by rw [hdrop]; rfl) hv)
             · rw [if_neg hr]
               refine good_paTail hgo hm2 (fun _ => ⟨by rw [hsk2]; exact hki, fun q2 hq2 => ?_⟩)
               have h1 := (query?_sk hq2).2.2
